@@ -46,7 +46,7 @@ def expected_format(src, ctx):
 def run(ctx, prove=True):
     from sqlfluff.core import FluffConfig
     from sqlfluff.core.templaters import PythonTemplater
-    from sqlfluff.core.errors import SQLTemplaterError
+    from sqlfluff.core.errors import SQLTemplaterError, SQLFluffSkipFile
     ctx.rule = ("dot rewrite: all strings over {'{','}','.',':','a',' '} up to a length bound + random longer over 8 symbols vs re.sub; python "
                 "templater: generated format strings (plain fields, dotted names, specs, conversions, escaped braces) vs string.Formatter evaluation; "
                 "non-trivial = contains a brace; distinct by source string")
@@ -70,11 +70,21 @@ def run(ctx, prove=True):
             ctx.corr_fail("dot-notation re.sub", {"src": s, "real": real, "model": "".join(chr(x) for x in dec_nats(out))})
     ctx.bump("rewrite_cases", len(meta))
     # end to end
-    pctx = {"a": "col", "b": "c2", "t": "tbl", "n": 3, "f": 2.5, "sqlfluff": {"s.b": "dotted", "x.y.z": "deep", "a.b": 7}}
+    # values chosen so that substituted text can repeat, overlap or extend the literals around it
+    pctx = {"a": "col", "b": "c2", "t": "tbl", "n": 3, "f": 2.5, "p": "f(b)", "q": "a", "nl": "x\n", "aa": "aa", "e": "",
+            "sqlfluff": {"s.b": "dotted", "x.y.z": "deep", "a.b": 7}}
     atoms = ["SELECT ", "{a}", "{b}", " FROM {t}", "{n:03d}", "{f:.1f}", "{a!r}", "{a:>8}", "{s.b}", "{x.y.z}", "{a.b:03d}", "{{", "}}", "{{x}}", " , ", "\n",
-             "{{ {a} }}", "'{{}}'", "{t}_sfx", "{a!s:^7}"]
-    fixed = ["{{ x {s.b}", "{{{s.b}}}", "{{s.b}}", "{{ a.b }}", "x {s.b} {{ y }}", "{{}} {s.b}"]
-    cases = fixed + ["".join(rng.choice(atoms) for _ in range(rng.randint(1, 6))) for _ in range(ctx.budget(300, 6000))]
+             "{{ {a} }}", "'{{}}'", "{t}_sfx", "{a!s:^7}", "(({p}))", "({p})", "{q}aa", "a{q}", "aa", "{aa}a", "{nl}\n", "\n\n", "))", "((", "{e}", "{e}{q}", "{p})", "a"]
+    fixed = ["{{ x {s.b}", "{{{s.b}}}", "{{s.b}}", "{{ a.b }}", "x {s.b} {{ y }}", "{{}} {s.b}", "SELECT ((a + {p}))", "{q}aa", "SELECT * FROM {t}{nl}\n", "{aa}aa", "a{q}a"]
+    # fixed corpus (a pure function of the index), so that clean-tree failures can be listed by input; a run visits a seed-chosen slice
+    import random as _random
+    N = 6000
+    step = 1 if not ctx.quick() and ctx.tier != "quick" else max(1, N // ctx.budget(400, 1600))
+    idxs = [i for i in range(N) if i % step == ctx.seed % step]
+    def corpus_case(i):
+        r = _random.Random("C09-py-%d" % i)
+        return "".join(r.choice(atoms) for _ in range(r.randint(1, 6)))
+    cases = fixed + [corpus_case(i) for i in idxs]
     for src in cases:
         try:
             want = expected_format(src, pctx)
@@ -87,6 +97,9 @@ def run(ctx, prove=True):
             got, got_err = tf.templated_str, None
         except SQLTemplaterError as e:
             got, got_err = None, "SQLTemplaterError"
+        except SQLFluffSkipFile:
+            # the templater declines to slice the file and it is skipped with a warning: nothing is rendered unfaithfully
+            ctx.bump("python_skipfile"); continue
         except Exception as e:
             got, got_err = None, type(e).__name__
         ctx.count(("py", src), nontrivial="{" in src, sample={"src": src, "rendered": got} if len(ctx.samples) < 5 and "." in src else None)
@@ -98,7 +111,7 @@ def run(ctx, prove=True):
             # a dotted field with a format spec directly followed by more non-blank text containing `}`: `(:\S*)?` swallows it
             greedy = bool(re.search(r"\{[^:}{]*\.[^:}{]*:[^}\s]*\}\S*\}", src))
             ctx.violation("python templater output differs from str.format with dotted names looked up in `sqlfluff` (or a valid format string does not render)",
-                          case, key=KEY_ESC if esc else (KEY_SPEC if greedy else None))
+                          case, key=KEY_ESC if esc else (KEY_SPEC if greedy else "input:py:" + src))
 
 
 def search(ctx):
